@@ -4,16 +4,35 @@ from concurrent.futures import ThreadPoolExecutor
 import vf
 
 
-def launch(gram, cmd, path, timeout=30, retry=True):
-    # a launch that does not finish is tried once more with a much longer limit: on a saturated machine a slow launch must not
-    # be mistaken for a hang (-999 is reported only when the second, long, attempt does not finish either)
-    for limit in ((timeout, timeout * 20) if retry else (timeout,)):
-        try:
-            r = subprocess.run([gram, cmd, path], stdout=subprocess.PIPE, stderr=subprocess.PIPE, timeout=limit)
-            return r.returncode, r.stdout, r.stderr
-        except subprocess.TimeoutExpired as e:
-            last = e
-    return -999, last.stdout or b"", last.stderr or b""
+def _cpu_seconds(pid):
+    try:
+        f = open("/proc/%d/stat" % pid).read().rsplit(")", 1)[1].split()
+        return (int(f[11]) + int(f[12])) / 100.0
+    except Exception:
+        return 0.0
+
+
+def launch(gram, cmd, path, timeout=20, retry=True):
+    """one launch; the limit is on the CPU time the process has consumed (a saturated machine must not turn a slow launch
+    into a hang), with the wall clock as a 30x backstop.  -999 = did not finish."""
+    import tempfile, time
+    with tempfile.TemporaryFile() as fo, tempfile.TemporaryFile() as fe:
+        p = subprocess.Popen([gram, cmd, path], stdout=fo, stderr=fe)
+        t0 = time.time()
+        rc = None
+        while True:
+            try:
+                rc = p.wait(timeout=0.05)
+                break
+            except subprocess.TimeoutExpired:
+                if _cpu_seconds(p.pid) > timeout or time.time() - t0 > timeout * 30:
+                    p.kill()
+                    p.wait()
+                    rc = -999
+                    break
+        fo.seek(0)
+        fe.seek(0)
+        return rc, fo.read(), fe.read()
 
 
 def event(fid, cmd, rc, out, err, divergent=False):
